@@ -143,8 +143,8 @@ class Real(Type):
             return data
 
     def decode(self, data):
-        if isinstance(data, float):
-            return data
+        if isinstance(data, (float, int)):
+            return float(data)
         else:
             return {
                 'INF': float('inf'),
